@@ -49,8 +49,14 @@ fn c03_configs(tier: Tier) -> Vec<c03::C03> {
                         cfg.slow_ms = Some(20);
                         cfg.slow_rate = 0.5;
                     }
-                    v.push(c03::C03 { cfg, callers: tier.pick(3, 4), max_ticks: tier.pick(4, 5), max_drops: 1, max_force: 1, grid: 10, nested: 0 });
+                    v.push(c03::C03 { cfg, callers: tier.pick(3, 4), max_ticks: tier.pick(4, 5), max_drops: 1, max_force: 1, grid: 10, nested: 0, health_trigger: false });
                 }
+            }
+            // opened through the health-check integration (from a spawned task)
+            {
+                let mut cfg = base_cfg(time_based);
+                cfg.fallback = fallback;
+                v.push(c03::C03 { cfg, callers: 3, max_ticks: tier.pick(2, 3), max_drops: 0, max_force: 0, grid: 10, nested: 0, health_trigger: true });
             }
             if fallback {
                 // the fallback's future stays pending until released: an open call must still
@@ -60,7 +66,7 @@ fn c03_configs(tier: Tier) -> Vec<c03::C03> {
                 cfg.fallback_gated = true;
                 cfg.window_size = 1;
                 cfg.min_calls = Some(1);
-                v.push(c03::C03 { cfg, callers: 3, max_ticks: tier.pick(2, 4), max_drops: 0, max_force: 1, grid: 10, nested: 0 });
+                v.push(c03::C03 { cfg, callers: 3, max_ticks: tier.pick(2, 4), max_drops: 0, max_force: 1, grid: 10, nested: 0, health_trigger: false });
             }
             // configured from the fast_fail() preset, every setting overridden afterwards
             let mut cfg = base_cfg(time_based);
@@ -68,7 +74,7 @@ fn c03_configs(tier: Tier) -> Vec<c03::C03> {
             cfg.window_size = 1;
             cfg.min_calls = Some(1);
             cfg.preset_start = true;
-            v.push(c03::C03 { cfg, callers: 3, max_ticks: 3, max_drops: 0, max_force: 1, grid: 10, nested: 0 });
+            v.push(c03::C03 { cfg, callers: 3, max_ticks: 3, max_drops: 0, max_force: 1, grid: 10, nested: 0, health_trigger: false });
             // a wait below one millisecond (0.9 ms): on whole-millisecond instants the shield
             // covers exactly the instant of the opening
             let mut cfg = base_cfg(time_based);
@@ -77,21 +83,21 @@ fn c03_configs(tier: Tier) -> Vec<c03::C03> {
             cfg.min_calls = Some(1);
             cfg.wait_ms = 1;
             cfg.wait_shave_us = 100;
-            v.push(c03::C03 { cfg, callers: 3, max_ticks: 2, max_drops: 0, max_force: 1, grid: 1, nested: 0 });
+            v.push(c03::C03 { cfg, callers: 3, max_ticks: 2, max_drops: 0, max_force: 1, grid: 1, nested: 0, health_trigger: false });
             // emulated lock contention, including a caller polled from inside the announcement
             // of the opening
             let mut cfg = base_cfg(time_based);
             cfg.fallback = fallback;
             cfg.window_size = 1;
             cfg.min_calls = Some(1);
-            v.push(c03::C03 { cfg, callers: 3, max_ticks: 1, max_drops: 0, max_force: 1, grid: 10, nested: tier.pick(1, 2) });
+            v.push(c03::C03 { cfg, callers: 3, max_ticks: 1, max_drops: 0, max_force: 1, grid: 10, nested: tier.pick(1, 2), health_trigger: false });
             // "stay open until closed by hand": wait_duration_in_open = Duration::MAX
             let mut cfg = base_cfg(time_based);
             cfg.fallback = fallback;
             cfg.window_size = 1;
             cfg.min_calls = Some(1);
             cfg.wait_ms = handle::WAIT_FOREVER;
-            v.push(c03::C03 { cfg, callers: 3, max_ticks: tier.pick(2, 3), max_drops: 0, max_force: 1, grid: 10, nested: 0 });
+            v.push(c03::C03 { cfg, callers: 3, max_ticks: tier.pick(2, 3), max_drops: 0, max_force: 1, grid: 10, nested: 0, health_trigger: false });
             // the same with everything in the seconds range: wait 1.01 s, time window 10.1 s
             let mut cfg = base_cfg(time_based);
             cfg.fallback = fallback;
@@ -99,7 +105,7 @@ fn c03_configs(tier: Tier) -> Vec<c03::C03> {
             cfg.min_calls = Some(1);
             cfg.wait_ms = 1010;
             cfg.window_ms = 10_100;
-            v.push(c03::C03 { cfg, callers: 3, max_ticks: tier.pick(4, 5), max_drops: 0, max_force: 1, grid: 1010, nested: 0 });
+            v.push(c03::C03 { cfg, callers: 3, max_ticks: tier.pick(4, 5), max_drops: 0, max_force: 1, grid: 1010, nested: 0, health_trigger: false });
             // a short wait (one grid step): open, wait, trial, the trial outlasts another wait
             // and fails, re-open - the shield must start again from the re-opening - all
             // within the depth bound
@@ -108,7 +114,7 @@ fn c03_configs(tier: Tier) -> Vec<c03::C03> {
             cfg.window_size = 1;
             cfg.min_calls = Some(1);
             cfg.wait_ms = 10;
-            v.push(c03::C03 { cfg, callers: 3, max_ticks: tier.pick(4, 5), max_drops: 0, max_force: 1, grid: 10, nested: 0 });
+            v.push(c03::C03 { cfg, callers: 3, max_ticks: tier.pick(4, 5), max_drops: 0, max_force: 1, grid: 10, nested: 0, health_trigger: false });
         }
     }
     v
@@ -211,7 +217,7 @@ fn main() {
             let mut rep = Report::new("C03", tier, "model_checking");
             rep.rule = "BFS over action histories {Arrive,Poll,Drop,Complete(ok|err),Tick,ForceOpen} of the real CircuitBreaker (with and without fallback) under virtual time; before every action the lock-free state and the transition log are sampled, after it the inner call log is inspected".into();
             rep.assumptions = vec!["prompt executor; interleaving granularity is one Future::poll (state is behind a tokio Mutex never held across an await)".into()];
-            for w in ["rejected_while_open", "call_in_flight_while_open", "opened_by_force_open", "opened_by_recorded_outcomes", "went_half_open_after_wait", "reopened_by_a_failed_trial", "fallback_pending_while_others_are_served"] {
+            for w in ["rejected_while_open", "call_in_flight_while_open", "opened_by_force_open", "opened_by_trigger_unhealthy", "opened_by_recorded_outcomes", "went_half_open_after_wait", "reopened_by_a_failed_trial", "fallback_pending_while_others_are_served"] {
                 rep.require_witness(w);
             }
             let depth = tier.pick(10, 13);
